@@ -326,4 +326,171 @@ def Region.solve (d : Nat) (R : Region) : Option Solution :=
 
 def gradFn (Gs : List Vec) : Nat → Vec := fun i => Gs.getD i []
 
+/-! ## `mpfa2d`: the whole 2-D discretisation
+
+The grid as the real code sees it: `face_nodes`, `cell_faces` (here per face: its cells with the
+orientation sign, ascending in the cell index), the geometry arrays, a permeability per cell, the
+boundary type per face and the continuity parameter η.  Per node `v` the model builds the
+interaction region itself (sub-cell topology: faces containing `v`, cells of those faces, local
+numbering = ascending global index — what `SubcellTopology` obtains by a lexsort), solves it with
+the certified left inverse, and adds the sub-face results up per face (`hf2f`, `area_mat`). -/
+
+structure Grid2 where
+  nodes : List Vec
+  faceNodes : List (List Nat)
+  faceCells : List (List (Nat × Rat))
+  cellCenters : List Vec
+  faceCenters : List Vec
+  faceNormals : List Vec
+  perm : List Mat
+  isDir : List Bool
+  eta : Rat
+deriving Repr
+
+namespace Grid2
+variable (G : Grid2)
+
+def numNodes : Nat := G.nodes.length
+def numFaces : Nat := G.faceNodes.length
+def numCells : Nat := G.cellCenters.length
+def nodeAt (v : Nat) : Vec := G.nodes.getD v []
+def ccAt (c : Nat) : Vec := G.cellCenters.getD c []
+def fcAt (f : Nat) : Vec := G.faceCenters.getD f []
+def fnAt (f : Nat) : Vec := G.faceNormals.getD f []
+def permAt (c : Nat) : Mat := G.perm.getD c []
+def fnodes (f : Nat) : List Nat := G.faceNodes.getD f []
+def fcells (f : Nat) : List (Nat × Rat) := G.faceCells.getD f []
+def dirAt (f : Nat) : Bool := G.isDir.getD f false
+/-- number of nodes (= number of sub-faces) of a face, as a rational -/
+def nN (f : Nat) : Rat := ((G.fnodes f).length : Nat)
+
+/-- faces that contain node `v`, ascending -/
+def facesOf (v : Nat) : List Nat := (List.range G.numFaces).filter (fun f => (G.fnodes f).contains v)
+
+/-- cells of the faces around `v`, ascending and without repetition -/
+def cellsOf (v : Nat) : List Nat :=
+  (List.range G.numCells).filter (fun c => ((G.facesOf v).flatMap (fun f => (G.fcells f).map (·.1))).contains c)
+
+/-- local number of cell `c` in the interaction region of `v` -/
+def loc (v c : Nat) : Nat := (G.cellsOf v).idxOf c
+
+def mkCell (p : List Rat) (c : Nat) : SubCell := ⟨G.ccAt c, G.permAt c, p.getD c 0⟩
+
+/-- the sub-face of face `f` at node `v`, with its data: `bc f` is the Dirichlet value resp. the
+    Neumann flux integrated over the WHOLE face (divided here by the number of sub-faces) -/
+def mkFace (bc : List Rat) (v f : Nat) : SubFace :=
+  let n := smul (1 / G.nN f) (G.fnAt f)
+  match G.fcells f with
+  | [(c, s)] =>
+      if G.dirAt f then ⟨n, G.fcAt f, .dirichlet (G.loc v c) (bc.getD f 0)⟩
+      else ⟨n, G.fcAt f, .neumann (G.loc v c) s (bc.getD f 0 / G.nN f)⟩
+  | [(c1, _), (c2, _)] =>
+      ⟨n, vadd (G.fcAt f) (smul G.eta (vsub (G.nodeAt v) (G.fcAt f))), .interior (G.loc v c1) (G.loc v c2)⟩
+  | _ => ⟨n, G.fcAt f, .dirichlet 0 0⟩
+
+/-- the interaction region of node `v` with the data `p` (cells) and `bc` (faces) -/
+def region (p bc : List Rat) (v : Nat) : Region :=
+  { cells := (G.cellsOf v).map (G.mkCell p), faces := (G.facesOf v).map (G.mkFace bc v) }
+
+/-- certified left inverse of the local matrix of node `v` (the matrix does not depend on the data) -/
+def certAt (v : Nat) : Option Mat :=
+  match leftInverse ((G.region [] [] v).matrix 2) with
+  | none => none
+  | some L => if certOK 2 (G.region [] [] v) L then some L else none
+
+def allSome : List (Option α) → Option (List α)
+  | [] => some []
+  | none :: _ => none
+  | some a :: l => match allSome l with
+    | none => none
+    | some as => some (a :: as)
+
+/-- certificates of all nodes; `none` = some interaction region is singular -/
+def certs : Option (List Mat) := allSome ((List.range G.numNodes).map G.certAt)
+
+structure NodeSol where
+  R : Region
+  Gs : List Vec
+deriving Repr
+
+/-- per node: the region with its data and the sub-cell gradients `L_v · rhs_v` -/
+def nodeSols (Ls : List Mat) (p bc : List Rat) : List NodeSol :=
+  (List.range G.numNodes).map (fun v =>
+    let R := G.region p bc v
+    ⟨R, chunks 2 R.cells.length (mulVec (Ls.getD v []) (R.rhs 2))⟩)
+
+def nodeSolAt (ns : List NodeSol) (v : Nat) : NodeSol := ns.getD v ⟨⟨[], []⟩, []⟩
+
+/-- flux through face `f`: sum of its sub-face fluxes (`hf2f`) -/
+def faceFlux (ns : List NodeSol) (bc : List Rat) (f : Nat) : Rat :=
+  ((G.fnodes f).map (fun v =>
+    (G.mkFace bc v f).flux (nodeSolAt ns v).R (gradFn (nodeSolAt ns v).Gs))).sum
+
+/-- reconstructed pressure on face `f`: mean of its sub-face values (`area_mat`) -/
+def facePres (ns : List NodeSol) (bc : List Rat) (f : Nat) : Rat :=
+  ((G.fnodes f).map (fun v =>
+    (G.mkFace bc v f).pres (nodeSolAt ns v).R (gradFn (nodeSolAt ns v).Gs))).sum / G.nN f
+
+/-- `flux·p + bound_flux·bc` and `bound_pressure_cell·p + bound_pressure_face·bc` for all faces -/
+def apply (Ls : List Mat) (p bc : List Rat) : List Rat × List Rat :=
+  let ns := G.nodeSols Ls p bc
+  ((List.range G.numFaces).map (G.faceFlux ns bc), (List.range G.numFaces).map (G.facePres ns bc))
+
+def unit (n k : Nat) : List Rat := (List.range n).map (fun j => if j = k then 1 else 0)
+
+/-- the four matrices, column by column (cell columns: `flux`, `bound_pressure_cell`; face columns:
+    `bound_flux`, `bound_pressure_face`), each column = the scheme applied to a unit vector -/
+def matrices (Ls : List Mat) : List (List Rat × List Rat) × List (List Rat × List Rat) :=
+  ((List.range G.numCells).map (fun c => G.apply Ls (unit G.numCells c) []),
+   (List.range G.numFaces).map (fun f => G.apply Ls [] (unit G.numFaces f)))
+
+/-! well-formedness of the grid (decidable) -/
+
+def fcOK (nc : Nat) : List (Nat × Rat) → Prop
+  | [(c, _)] => c < nc
+  | [(c1, _), (c2, _)] => c1 < nc ∧ c2 < nc ∧ c1 ≠ c2
+  | _ => False
+
+instance (nc : Nat) (l : List (Nat × Rat)) : Decidable (fcOK nc l) := by
+  unfold fcOK; split <;> infer_instance
+
+def WF : Prop :=
+  G.faceCells.length = G.numFaces ∧ G.faceCenters.length = G.numFaces ∧
+  G.faceNormals.length = G.numFaces ∧ G.perm.length = G.numCells ∧
+  (∀ x ∈ G.nodes, x.length = 2) ∧ (∀ x ∈ G.cellCenters, x.length = 2) ∧
+  (∀ x ∈ G.faceCenters, x.length = 2) ∧ (∀ x ∈ G.faceNormals, x.length = 2) ∧
+  (∀ K ∈ G.perm, K.length = 2 ∧ ∀ r ∈ K, r.length = 2) ∧
+  (∀ l ∈ G.faceNodes, l ≠ [] ∧ ∀ v ∈ l, v < G.numNodes) ∧
+  (∀ l ∈ G.faceCells, fcOK G.numCells l)
+
+instance : Decidable G.WF := by unfold WF; infer_instance
+
+def bcOK (K : Mat) (a : Vec) (b : Rat) (bc : List Rat) (f : Nat) : Prop :=
+  match G.fcells f with
+  | [(_, s)] =>
+      if G.dirAt f then bc.getD f 0 = affine a b (G.fcAt f)
+      else bc.getD f 0 = -(s * nKg (G.fnAt f) K a)
+  | _ => True
+
+/-- global data of the affine field `p(x) = a·x + b` with the constant permeability `K`:
+    cell values `p(x_c)`, Dirichlet values `p(x_f)`, Neumann values = outward Darcy flux through
+    the face, `−sgn · n_f·K a` -/
+def AffineGlobal (K : Mat) (a : Vec) (b : Rat) (p bc : List Rat) : Prop :=
+  (∀ c < G.numCells, G.permAt c = K ∧ p.getD c 0 = affine a b (G.ccAt c)) ∧
+  (∀ f < G.numFaces, G.bcOK K a b bc f)
+
+def isBoundary (f : Nat) : Bool := (G.fcells f).length == 1
+
+def affineBc (K : Mat) (a : Vec) (b : Rat) (f : Nat) : Rat :=
+  match G.fcells f with
+  | [(_, s)] => if G.dirAt f then affine a b (G.fcAt f) else -(s * nKg (G.fnAt f) K a)
+  | _ => 0
+
+/-- the data of `AffineGlobal`, computed -/
+def affineData (K : Mat) (a : Vec) (b : Rat) : List Rat × List Rat :=
+  ((List.range G.numCells).map (fun c => affine a b (G.ccAt c)),
+   (List.range G.numFaces).map (G.affineBc K a b))
+
+end Grid2
+
 end PorepyVerif.C11
